@@ -122,7 +122,12 @@ def judge_frame_selection(S, ref, k, v, ctx, bt, shadow, rng):
         v.count('frame_selections')
         want = rd - (R - 1) + fnum
         vals = [scalar_int(x['value']) for x in (a.get('ok') or [])]
-        if vals != [want]:
+        if vals != [want] and fnum > 0 and (ctx.get('cfg') or {}).get('opt', 0) >= 1:
+            # optimized code keeps `n` in a callee-saved register: frames above the innermost read the register of the wrong
+            # frame - the C19 known finding, seen here through frame selection (C05 judges the backtrace and the selection itself)
+            v.violation('c19:opt1:frame-shows-another-activation', 'argument read after selecting frame k is not the value of that activation',
+                        dict(ctx, index=k, frame=fnum, want_n=want, got=vals, reply=a.get('err')), prop='C19')
+        elif vals != [want]:
             v.violation('c05:frame-selection-reads-wrong-activation',
                         'argument read after selecting frame k is not the value of that activation',
                         dict(ctx, index=k, frame=fnum, want_n=want, got=vals, reply=a.get('err')))
@@ -339,7 +344,7 @@ def main(tier):
         specs = [(i, s, cfgs[i % 2], tier) for i in range(6) for s in range(6)]
     else:
         cfgs = [dict(tc=tc, opt=o, dwarf=d, pie=True) for tc in ('1.89', '1.95') for o in (0, 1) for d in (4, 5)]
-        specs = [(i, s, cfgs[(i + s) % len(cfgs)], tier) for i in range(40) for s in range(20)]
+        specs = [(i, s, cfgs[(i + s) % len(cfgs)], tier) for i in range(40) for s in range(12)]
     progs = sorted({(s[0], tuple(sorted(s[2].items())), tier == 'thorough') for s in specs})
     common.parallel_map(_prep, progs)
     for res in common.safe_map(run_case, specs):
